@@ -504,6 +504,50 @@ pub fn run(tier: Tier) -> i32 {
         let sp: Vec<(Vec<String>, Vec<u8>)> = cs.iter().enumerate().filter(|(i, c)| i % 5 == 0 && c.spectrum < FIRST_BIG).map(|(_, c)| (combined_args(c), text_of(&spectra()[c.spectrum]).into_bytes())).collect();
         super::spelling_part(&mut rep, "C13", "every fifth option combination of the main part", &sp, &scratch);
     }
+    // refused combinations: a projection target whose length is not the number of axes that are left
+    // after marginalization - also when it is the smallest target (all ones), also with masking and
+    // normalization behind it
+    {
+        let mut rj: Vec<(usize, Vec<&str>)> = Vec::new();
+        for (si, lists) in [
+            (1usize, vec![vec!["--project-shape", "1"], vec!["-p", "0"], vec!["--project-shape", "2"], vec!["--project-shape", "1,1,1"], vec!["-p", "0,0,0"], vec!["-m", "0", "-p", "0,0"], vec!["-M", "1", "--project-shape", "1,1"]]),
+            (2usize, vec![vec!["-p", "0,0"], vec!["--project-shape", "1"], vec!["-m", "0", "-p", "0"], vec!["-m", "0", "--project-shape", "1,1,1"], vec!["-M", "0", "-p", "0,0"], vec!["-m", "1,2", "--project-shape", "1,1"], vec!["--project-shape", "1,1,1,1"], vec!["-m", "2", "-p", "1"]]),
+        ] {
+            for l in lists {
+                for tail in [vec![], vec!["--mask-monomorphic"], vec!["--normalize"], vec!["--mask-monomorphic", "--normalize", "-O", "npy"]] {
+                    let mut a = vec!["view"];
+                    a.extend(l.iter().copied());
+                    a.extend(tail);
+                    rj.push((si, a));
+                }
+            }
+        }
+        let res = par_map(rj.len(), |i| {
+            let (si, a) = &rj[i];
+            let input = text_of(&spectra()[*si]);
+            let o = run_sfs(a, Stdin::Bytes(input.as_bytes()), &scratch);
+            if !o.ok() && o.stdout.is_empty() && o.diagnosed_error() {
+                None
+            } else {
+                Some((
+                    "C13|cli|inadmissible-combination-accepted".to_string(),
+                    format!("{a:?} on shape {:?}: {} stdout {:?} stderr {:?}", spectra()[*si].shape, o.status_str(), &o.stdout_str()[..o.stdout.len().min(120)], o.stderr_str().trim()),
+                    J::obj([("kind", J::s("c13-refused")), ("argv", J::strs(a)), ("spectrum", J::u(*si))]),
+                ))
+            }
+        });
+        for v in res.into_iter().flatten() {
+            rep.violation(v.0, v.1, v.2);
+        }
+        rep.part(Part {
+            name: "cli: combinations that must be refused".into(),
+            evaluations: rj.len() as u64,
+            nontrivial: rj.len() as u64,
+            note: "projection targets whose length is not the number of axes left after marginalization (among them the smallest target, all ones / zero individuals) on a 2- and a 3-axis spectrum, alone and followed by masking, normalization and npy output: a diagnosed error and nothing on stdout".into(),
+            exhaustive: true,
+            extra: vec![],
+        });
+    }
     // verbosity flags must not change what view prints
     {
         let flags = ["-q", "-qq", "-v", "-vv"];
@@ -658,6 +702,14 @@ pub fn run(tier: Tier) -> i32 {
 }
 
 pub fn replay(case: &J) -> Option<Vec<String>> {
+    if case.get("kind").and_then(|k| k.as_str()) == Some("c13-refused") {
+        let scratch = Scratch::new("c13r");
+        let argv: Vec<String> = case.get("argv")?.as_arr()?.iter().filter_map(|x| x.as_str().map(|s| s.to_string())).collect();
+        let a: Vec<&str> = argv.iter().map(|s| s.as_str()).collect();
+        let input = text_of(&spectra()[case.get("spectrum")?.as_i64()? as usize]);
+        let o = run_sfs(&a, Stdin::Bytes(input.as_bytes()), &scratch);
+        return Some(if !o.ok() && o.stdout.is_empty() && o.diagnosed_error() { vec![] } else { vec![format!("C13|cli|inadmissible-combination-accepted :: {}", o.status_str())] });
+    }
     if case.get("kind").and_then(|k| k.as_str()) == Some("c13-lib") {
         let init = RefArray { shape: case.get("shape")?.as_usizes()?, data: case.get("values")?.as_arr()?.iter().filter_map(|v| v.as_f64()).collect() };
         let hist: Vec<super::c13_lib::Op> = case.get("history")?.as_str()?.split_whitespace().map(super::c13_lib::Op::parse).collect::<Option<_>>()?;
